@@ -87,6 +87,14 @@ fn bodies(maxlen: usize) -> Vec<String> {
         "::map = f", "::and_then = f", "::default", "::skip", "::flatten", "::rename = \"x\"", "a::map = f", "::attributes(a)", "::supports(any)", "::from_word = f", "::word", "::multiple"] {
         v.push(format!("#[darling({o})]"));
     }
+    // every option name in every meta form (word, empty list, list, literal / path / bool values)
+    for o in ["rename", "default", "with", "skip", "map", "and_then", "multiple", "flatten", "rename_all", "attributes", "forward_attrs", "supports", "word", "from_ident", "allow_unknown_fields", "bound", "from_word", "from_none"] {
+        for form in ["", "()", "(x)", "(\"x\")", "(x = 1)", " = \"x\"", " = true", " = false", " = 5", " = f", " = -1", " = (x)"] {
+            v.push(format!("#[darling({o}{form})]"));
+        }
+    }
+    v.sort();
+    v.dedup();
     v
 }
 
